@@ -57,6 +57,9 @@ CLAIMED = {
     "C06": dict(level="model_checking", ref="4/C06", technique="TLA+ reference semantics of iteration/aggregation constructs (Expand.tla: Envs, Unroll) generating program + unrolled twin; TLA+ trace validation (ExpandTrace) of row-for-row equality of the two real compilations",
                 text="Expand.tla defines the meaning of binders (ranges, inclusive ranges, len, arrays, enumerate, nested arrays, graph nodes and edges with weights, dependent bounds), indexed names, coefficients from data and sum/min/max/avg blocks, and prints for every program of its families the text with constructs and the text it unrolls; both are compiled by the real front end and linearizer and must be equal row for row.",
                 note="data is fixed in the specification; the families are enumerated completely, three-row mixes are simulated"),
+    "C19": dict(level="model_checking", ref="4/C19", technique="TLA+ trace validation (TypeTrace: classification of transform failures into type-class and data-dependent from the error's own structure) of type_check followed by transform on the complete (position x filler) family of TypeGen.tla",
+                text="TypeGen.tla enumerates every pair of a program position (operand, index, bound, iteration source, function argument, array index, aggregation body, destructuring pattern, declaration bound, logic operand, let body) and a filler of a chosen type; the real type checker and transformer run on each; TypeTrace.tla accepts an event iff acceptance implies that transform succeeds or fails with a data-dependent error.",
+                note="soundness only; three classes of genuine type-checker holes are listed as known findings"),
 }
 NOT_YET = {}
 ALL = [f"C{i:02d}" for i in range(1, 21)]
